@@ -1003,6 +1003,11 @@ impl<T, S: Status> Drop for Drain<'_, T, S> {
                 unsafe { slot.data.assume_init_drop() };
             }
         }
+        // `RawTable::drain()` already accounted all slots as free, so also reset
+        // the tombstones behind the last element.
+        for slot in &mut self.iter {
+            slot.status = S::FREE;
+        }
     }
 }
 
